@@ -45,7 +45,8 @@ def gen(tier, rng):
     # mechanisms x short preference lists; with no usable mechanism the send fails before any credential, MAIL or DATA
     from tools.props import c06
     for k in range(4):
-        for offered in itertools.combinations(mechs + ["CRAM-MD5"], k):
+        for offered in list(itertools.combinations(mechs + ["CRAM-MD5"], k)) + (
+                [("PLAIN-CLIENTTOKEN",), ("LOGIN-TOKEN", "XOAUTH2-BETA"), ("PLAINX", "XLOGIN"), ("plain-x", "LOGIN"), ("XOAUTH2X", "PLAIN")] if k == 1 else []):
             for prefs in ("P", "L", "X", "PL", "LP", "XP", "PLX"):
                 ehlo = b"250-srv\r\n" + (b"250-SIZE 1000\r\n" if i % 3 == 0 else b"") + (b"250 AUTH " + " ".join(offered).encode() + b"\r\n" if offered else b"250 8BITMIME\r\n")
                 clear = [smtpgen.step(b"220 srv ESMTP\r\n"), smtpgen.step(ehlo)]
